@@ -701,7 +701,14 @@ class Interp:
         args = []
         for a in e.args:
             if isinstance(a, ast.Starred):
-                args.extend(self.iter_concrete(self.ev(a.value, fr)))
+                sv = self.ev(a.value, fr)
+                sq = B.as_seq_or_none(self, sv) if len(e.args) == 1 else None
+                if sq is not None and not sq.is_concrete_len():
+                    # f(*xs) with xs of symbolic length as the only positional argument: the callee's dependency
+                    # contract (or its *args parameter) receives the whole sequence
+                    args.append(B.StarArgs(sq))
+                else:
+                    args.extend(self.iter_concrete(sv))
             else:
                 args.append(self.ev(a, fr))
         kwargs = {}
@@ -825,6 +832,11 @@ class Interp:
         defaults = [None] * (len(params) - len(node.defaults)) + list(node.defaults)
         args = list(args)
         kwargs = dict(kwargs)
+        if len(args) == 1 and isinstance(args[0], B.StarArgs):
+            if params or not node.vararg:
+                raise Unsupported('f(*xs) with xs of symbolic length into named parameters')
+            out[node.vararg.arg] = SSeq(args[0].seq.length, args[0].seq.get, 'tuple')
+            args = []
         for p, d in zip(params, defaults):
             if args:
                 if p.arg in kwargs:
@@ -836,7 +848,9 @@ class Interp:
                 out[p.arg] = early[id(d)] if early is not None and id(d) in early else self.ev(d, defframe)
             else:
                 self.raise_('TypeError', f'{fname}: missing argument {p.arg}')
-        if node.vararg:
+        if node.vararg and node.vararg.arg in out:
+            pass
+        elif node.vararg:
             out[node.vararg.arg] = tuple(args)
             args = []
         elif args:
